@@ -189,4 +189,167 @@ theorem extract_disjoint (s : Bytes) (a w val a' w' : Nat) (h : a + w ≤ 8 * s.
     simp [this]
   · simp [ht]
 
+
+/-! ### BITOP: bit by bit, operands zero-padded to the longest -/
+
+/-- a bit, read through the zero-padded view of the string -/
+theorem bitAt_getD (s : Bytes) (j : Nat) : bitAt s j = (s.getD (j / 8) 0).toNat.testBit (7 - j % 8) := by
+  unfold bitAt
+  rw [List.getD_eq_getElem?_getD]
+  cases s[j / 8]? with
+  | none => simp
+  | some b => simp
+
+/-- the boolean operation a BITOP name stands for (anything but AND / OR is XOR, as in `byteOp`) -/
+def boolOp (op : Bytes) (x y : Bool) : Bool :=
+  if op == sb "and" then x && y else if op == sb "or" then x || y else xor x y
+
+theorem byteOp_testBit (op : Bytes) (a b : UInt8) (t : Nat) :
+    (byteOp op a b).toNat.testBit t = boolOp op (a.toNat.testBit t) (b.toNat.testBit t) := by
+  unfold byteOp boolOp
+  split
+  · rw [UInt8.toNat_and, Nat.testBit_and]
+  · split
+    · rw [UInt8.toNat_or, Nat.testBit_or]
+    · rw [UInt8.toNat_xor, Nat.testBit_xor]
+
+theorem bitAt_padTo (s : Bytes) (n j : Nat) : bitAt (padTo s n) j = bitAt s j := by
+  rw [bitAt_getD, bitAt_getD]
+  unfold padTo
+  split
+  · congr 2
+    rw [List.getD_eq_getElem?_getD, List.getD_eq_getElem?_getD]
+    by_cases h : j / 8 < s.length
+    · rw [List.getElem?_append_left h]
+    · rw [List.getElem?_append_right (by omega)]
+      have : s[j / 8]? = none := List.getElem?_eq_none (by omega)
+      rw [this]
+      cases hr : (List.replicate (n - s.length) (0 : UInt8))[j / 8 - s.length]? with
+      | none => rfl
+      | some x =>
+        have := List.mem_replicate.mp (List.mem_of_getElem? hr)
+        simp [this.2]
+  · rfl
+
+/-- one round of the fold: the accumulator combined with the next operand -/
+theorem bitAt_bitopStep (op : Bytes) (acc x : Bytes) (L j : Nat) (hj : j < 8 * L) :
+    bitAt ((List.range L).map fun i => byteOp op (acc.getD i 0) (x.getD i 0)) j =
+      boolOp op (bitAt acc j) (bitAt x j) := by
+  have hidx : j / 8 < L := by omega
+  rw [bitAt_getD, bitAt_getD acc, bitAt_getD x]
+  rw [List.getD_eq_getElem?_getD, List.getElem?_map, List.getElem?_range hidx]
+  simp only [Option.map_some, Option.getD_some]
+  exact byteOp_testBit op _ _ _
+
+/-- **BITOP AND / OR / XOR**: every bit of the result is the operation applied, operand after operand, to
+    the corresponding bits of the operands, each read as zero beyond its end -/
+theorem bitop_fold_bits (op : Bytes) (L j : Nat) (hj : j < 8 * L) (r : List Bytes) : ∀ (acc : Bytes),
+    bitAt (r.foldl (fun acc x => (List.range L).map fun i => byteOp op (acc.getD i 0) (x.getD i 0)) acc) j =
+      r.foldl (fun b x => boolOp op b (bitAt x j)) (bitAt acc j) := by
+  induction r with
+  | nil => intro acc; rfl
+  | cons x r ih =>
+    intro acc
+    simp only [List.foldl_cons]
+    rw [ih, bitAt_bitopStep op acc x L j hj]
+
+/-- … starting from the first operand padded with zeros -/
+theorem bitop_bits (op : Bytes) (v : Bytes) (r : List Bytes) (L j : Nat) (hj : j < 8 * L) :
+    bitAt (r.foldl (fun acc x => (List.range L).map fun i => byteOp op (acc.getD i 0) (x.getD i 0)) (padTo v L)) j =
+      r.foldl (fun b x => boolOp op b (bitAt x j)) (bitAt v j) := by
+  rw [bitop_fold_bits op L j hj r, bitAt_padTo]
+
+/-- the result is as long as the longest operand (when there is more than one) -/
+theorem bitop_length (op : Bytes) (L : Nat) (x : Bytes) (r : List Bytes) (acc : Bytes) :
+    ((x :: r).foldl (fun acc x => (List.range L).map fun i => byteOp op (acc.getD i 0) (x.getD i 0)) acc).length = L := by
+  induction r generalizing x acc with
+  | nil => simp
+  | cons y r ih =>
+    rw [List.foldl_cons]
+    exact ih y _
+
+/-- **BITOP NOT**: every bit inverted, same length -/
+theorem bitop_not_bits (v : Bytes) (j : Nat) (hj : j < 8 * v.length) :
+    bitAt (v.map fun b => (255 - b.toNat).toUInt8) j = !bitAt v j := by
+  have hidx : j / 8 < v.length := by omega
+  unfold bitAt
+  rw [List.getElem?_map, List.getElem?_eq_getElem hidx]
+  simp only [Option.map_some]
+  have key : ∀ (n : Nat), n < 256 → ∀ t, t < 8 → ((255 - n).toUInt8).toNat.testBit t = !n.testBit t := by
+    decide +kernel
+  exact key _ (UInt8.toNat_lt _) _ (by omega)
+
+
+/-! ### BITCOUNT: the number of set bits -/
+
+theorem foldl_add_shift (f : UInt8 → Nat) (l : List UInt8) (a : Nat) :
+    l.foldl (fun acc x => acc + f x) a = a + l.foldl (fun acc x => acc + f x) 0 := by
+  induction l generalizing a with
+  | nil => simp
+  | cons x r ih =>
+    simp only [List.foldl_cons]
+    rw [ih (a + f x), ih (0 + f x)]
+    omega
+
+theorem popcount8_eq (b : UInt8) :
+    popcount8 b = ((List.range 8).filter fun j => b.toNat.testBit (7 - j)).length := by
+  have key : ∀ n : Nat, n < 256 →
+      ((List.range 8).filter fun i => n.testBit i).length = ((List.range 8).filter fun j => n.testBit (7 - j)).length := by
+    decide +kernel
+  exact key _ (UInt8.toNat_lt b)
+
+theorem bitAt_cons_lt (b : UInt8) (r : Bytes) (j : Nat) (hj : j < 8) : bitAt (b :: r) j = b.toNat.testBit (7 - j) := by
+  unfold bitAt
+  have : j / 8 = 0 := by omega
+  have h2 : j % 8 = j := by omega
+  simp [this, h2]
+
+theorem bitAt_cons_ge (b : UInt8) (r : Bytes) (j : Nat) : bitAt (b :: r) (j + 8) = bitAt r j := by
+  unfold bitAt
+  have : (j + 8) / 8 = j / 8 + 1 := by omega
+  have h2 : (j + 8) % 8 = j % 8 := by omega
+  simp [this, h2]
+
+/-- the byte-wise population count is the number of set bit positions of the string -/
+theorem popcount_bits (s : Bytes) :
+    s.foldl (fun acc x => acc + popcount8 x) 0 = ((List.range (8 * s.length)).filter fun j => bitAt s j).length := by
+  induction s with
+  | nil => simp
+  | cons b r ih =>
+    simp only [List.foldl_cons, List.length_cons]
+    rw [foldl_add_shift, ih]
+    have hr : 8 * (r.length + 1) = 8 + 8 * r.length := by omega
+    rw [hr, List.range_add, List.filter_append, List.length_append, List.filter_map, List.length_map]
+    congr 1
+    · rw [Nat.zero_add, popcount8_eq]
+      apply congrArg List.length
+      apply List.filter_congr
+      intro j hj
+      rw [bitAt_cons_lt b r j (List.mem_range.mp hj)]
+    · apply congrArg List.length
+      apply List.filter_congr
+      intro j _
+      simp only [Function.comp]
+      rw [Nat.add_comm, bitAt_cons_ge]
+
+/-- **BITCOUNT key** answers the number of set bits of the string -/
+theorem bitcount_whole (c : Ctx) (db : Db) (k b : Bytes) (x : Option Int) (i : Nat)
+    (hl : db.live c.now k = some { val := .str b, exp := x, id := i }) :
+    (cmdBitCount c db k none).reply = vInt ((List.range (8 * b.length)).filter fun j => bitAt b j).length := by
+  unfold cmdBitCount
+  rw [hl]
+  simp only
+  cases b with
+  | nil => simp [R.ok, vInt]
+  | cons y r =>
+    have hlen : ((y :: r).length : Int) = (r.length : Int) + 1 := by simp
+    simp only [List.isEmpty_cons, Bool.false_eq_true, ↓reduceIte]
+    have h0 : ¬ ((0 : Int) ≥ ((y :: r).length : Int)) := by rw [hlen]; omega
+    have h1 : ¬ (((y :: r).length : Int) - 1 < 0) := by rw [hlen]; omega
+    have h2 : ¬ (((y :: r).length : Int) - 1 ≥ ((y :: r).length : Int)) := by omega
+    simp only [h0, h1, h2, Int.lt_irrefl, decide_false, Bool.and_false, Bool.false_eq_true, ↓reduceIte, R.ok]
+    rw [← popcount_bits]
+    have ht : (((y :: r).length : Int) - 1 - 0 + 1).toNat = (y :: r).length := by omega
+    simp only [Int.toNat_zero, List.drop_zero, ht, List.take_length]
+
 end RedisEmu
